@@ -37,8 +37,9 @@ const (
 	TChan    = "chan"
 	TFunc    = "func"
 	TComplex = "complex128"
-	TArray   = "array" // [2]Elem
-	TIntMap  = "intmap" // map[int]string: keys that are not strings are no property names
+	TArray   = "array"   // [2]Elem
+	TRoleMap = "rolemap" // map[Role]Elem with "type Role string": a string-keyed map like any other (Keys, Items)
+	TIntMap  = "intmap"  // map[int]string: keys that are not strings are no property names
 	TBoolMap = "boolmap" // map[bool]int
 )
 
@@ -58,10 +59,18 @@ type Type struct {
 	Fixed string `json:"fixed,omitempty"`
 }
 
-func T(k string) *Type          { return &Type{K: k} }
-func PtrTo(e *Type) *Type       { return &Type{K: TPtr, Elem: e} }
-func SliceOf(e *Type) *Type     { return &Type{K: TSlice, Elem: e} }
-func MapOf(e *Type) *Type       { return &Type{K: TMap, Elem: e} }
+func T(k string) *Type      { return &Type{K: k} }
+func PtrTo(e *Type) *Type   { return &Type{K: TPtr, Elem: e} }
+func SliceOf(e *Type) *Type { return &Type{K: TSlice, Elem: e} }
+func MapOf(e *Type) *Type   { return &Type{K: TMap, Elem: e} }
+
+// Role is a defined string type used as a map key.
+type Role string
+
+// RoleMap makes a map[Role]elem value.
+func RoleMap(elem *Type, keys []string, vals []*Value) *Value {
+	return &Value{T: &Type{K: TRoleMap, Elem: elem}, Keys: keys, Items: vals}
+}
 func StructOf(f ...Field) *Type { return &Type{K: TStruct, Fields: f} }
 
 // Value is a value of type T.
@@ -199,6 +208,8 @@ func GoType(t *Type) reflect.Type {
 		return reflect.TypeOf((func())(nil))
 	case TComplex:
 		return reflect.TypeOf(complex128(0))
+	case TRoleMap:
+		return reflect.MapOf(reflect.TypeOf(Role("")), GoType(t.Elem))
 	case TIntMap:
 		return reflect.TypeOf(map[int]string(nil))
 	case TBoolMap:
@@ -267,6 +278,14 @@ func (b *builder) build(v *Value) reflect.Value {
 			m := reflect.MakeMapWithSize(rt, len(v.Keys))
 			for i, k := range v.Keys {
 				m.SetMapIndex(reflect.ValueOf(k), b.build(v.Items[i]))
+			}
+			rv.Set(m)
+		}
+	case TRoleMap:
+		if !v.Nil {
+			m := reflect.MakeMapWithSize(rt, len(v.Keys))
+			for i, k := range v.Keys {
+				m.SetMapIndex(reflect.ValueOf(Role(k)), b.build(v.Items[i]))
 			}
 			rv.Set(m)
 		}
@@ -389,7 +408,7 @@ func Model(v *Value) (refint.Value, bool) {
 			arr[i] = m
 		}
 		return refint.ArrV(arr), ok
-	case TMap:
+	case TMap, TRoleMap:
 		ok := true
 		m := map[string]refint.Value{}
 		for i, k := range v.Keys {
@@ -438,7 +457,7 @@ func Describe(v *Value) string {
 			s += Describe(it)
 		}
 		return s + "}"
-	case TMap:
+	case TMap, TRoleMap:
 		s := "map[string]" + v.T.Elem.K + "{"
 		for i, k := range v.Keys {
 			if i > 0 {
